@@ -1,7 +1,7 @@
 (* DriverModel.v — the transcripts the correspondence check compares: for each family of driver case
    the model computes exactly the observables the C++ driver prints.  Executable; extracted. *)
 From Coq Require Import ZArith List Bool.
-From MdspanVerif Require Import MachInt ListAux Layouts Extents Convert View Submdspan.
+From MdspanVerif Require Import MachInt ListAux Layouts Extents Convert View MdArray Submdspan.
 Import ListNotations.
 Local Open Scope Z_scope.
 
@@ -315,3 +315,38 @@ Fixpoint p_run (tys : list ptype) (es ss : list Z) (p : list pentry) (ops : list
       end
   end.
 Definition p_program (tys : list ptype) (es ss : list Z) (ops : list pop) : list tval := p_run tys es ss [] ops.
+
+(* ---- family R: mdarray ---------------------------------------------------------------------------- *)
+Inductive rop :=
+| RCtorMap (h : nat)                      (* from extents / mapping [/ allocator]: value-initialised container *)
+| RCtorCtr (n : nat)                      (* from extents / mapping + container of n elements 1000, 1001, ... *)
+| RCopy (i : nat) | RMove (i : nat) | RAssign (i j : nat)
+| RWrite (i : nat) (args : list Z) (x : Z) | RWriteView (i : nat) (args : list Z) (x : Z).
+
+Definition r_step (t : ity) (m : mapping) (c : ckind) (s : list mdarr) (o : rop) : res (list mdarr) :=
+  match o with
+  | RCtorMap _ => rmap (fun a => s ++ [a]) (arr_from_mapping t c m)
+  | RCtorCtr n => Ok (s ++ [arr_from_container t m (map (fun k => 1000 + Z.of_nat k) (seq 0 n))])
+  | RCopy i => astep s (ACopy i)
+  | RMove i => astep s (AMove i (match c with CArray _ => true | CVector => false end))
+  | RAssign i j => astep s (AAssign i j)
+  | RWrite i a x => astep s (AWrite i a x)
+  | RWriteView i a x => astep s (AWriteView i a x)
+  end.
+Definition r_dump (s : list mdarr) : list Z :=
+  concat (map (fun a => [Z.of_nat (length (ar_ctr a)); arr_size a; 1] ++ exts (ar_map a) ++ [-7] ++
+                        (if Nat.leb (length (ar_ctr a)) 48 then ar_ctr a else []) ++ [-9]) s).
+Fixpoint r_run (t : ity) (m : mapping) (c : ckind) (s : list mdarr) (ops : list rop) : list tval :=
+  match ops with
+  | [] => []
+  | o :: ops' =>
+      match r_step t m c s o with
+      | UB => [TZ UB]
+      | Ok s' => TL (Ok (r_dump s')) :: r_run t m c s' ops'
+      end
+  end.
+Definition r_program (sv : mval) (arrN : option Z) (ops : list rop) : list tval :=
+  match mval_build sv with
+  | UB => [TZ UB]
+  | Ok m => r_run (mv_t sv) m (match arrN with Some n => CArray (Z.to_nat n) | None => CVector end) [] ops
+  end.
